@@ -10,7 +10,7 @@ import os
 import shutil
 
 from .. import gen_hist as GH, runner
-from ..framework import ALL_SCHEMAS, family, is_v2
+from ..framework import ALL_SCHEMAS, dir_name, family, is_v2
 
 LEVEL = "exploration"
 RULE = ("library states on all 18 versions from mixed histories (rich tracks, setters, crates, memberships), in memory "
@@ -22,7 +22,7 @@ RULE = ("library states on all 18 versions from mixed histories (rich tracks, se
 
 def make_case(cid, rng, schema, root, n_ops, disk):
     ops, metas = GH.gen_library_history(rng, schema, n_ops)
-    d = os.path.join(root, cid)
+    d = os.path.join(root, dir_name(cid, int(cid[1:]) if cid[1:].isdigit() and int(cid[1:]) % 3 == 0 else 0))
     v2 = is_v2(schema)
     if disk:
         first = {"op": "lib_create" if v2 else "create", "schema": schema, "dir": d}
